@@ -128,7 +128,7 @@ def extend(prop, rep, mod, code, args):
     if code != 0:
         return code  # a violation of the property on this tree: report it, do not self-test on top of it
     from .selftest.run import selftest
-    res = selftest([prop], root=rep.repo.root, jobs=getattr(args, "jobs", 16))
+    res = selftest([prop], root=rep.repo.root, jobs=getattr(args, "jobs", 16), renamed_mutants=True)
     summary = {"variants": len(res), "ok": sum(1 for r in res if r[3] == "ok"), "skipped": sum(1 for r in res if r[3] == "skipped"),
                "failing": [f"{r[1]} {r[3]} {r[2]} :: {r[4][:160]}" for r in res if r[3] not in ("ok", "skipped")],
                "mutants_reported": [f"{r[2]} -> {r[4][:120]}" for r in res if r[1] == "mutant" and r[3] == "ok"],
